@@ -115,10 +115,8 @@ def register(R):
 
     # ------------------------------------------------------------------ legacy uploader
     L = 's3transfer:MultipartUploader'
-    R.add_fields(L, _client=ExtT('client'), _config=ExtT('config'), _os=ExtT('osutil'), _executor_cls=ExtT('executor_cls'))
-    R.contract(f'{L}._upload_parts', params=dict(upload_id=ExtT('upload_id'), filename=ExtT('str'), bucket=ExtT('str'),
-                                                 key=ExtT('str'), callback=Any, extra_args=LEGACY_EXTRA),
-               returns=ExtT('parts'), raise_when={'Exception': lambda c: None})
+    R.add_fields(L, _client=ExtT('client'), _config=ObjT('s3transfer:TransferConfig'), _os=ObjT('s3transfer:OSUtils'), _executor_cls=ExtT('legacy_executor_cls'))
+    # (MultipartUploader._upload_parts: verified contract in b_legacy.py)
 
     def legacy_common(c):
         tr = c.trace
